@@ -165,6 +165,45 @@ def FastEncoderWithIncompatibility(payload):
     return payload.get('enc') == 'fast' and bool(_g(payload).get('inc'))
 
 
+def _permanent_nodes(g):
+    return _derived_only(g, g.get('start', []))
+
+
+@trigger
+def PermanentConnectionChoiceVariableInactive(payload):
+    """Every variable that is not flagged conditionally active and is reported inactive at the failing event belongs to
+    a connection choice with a PERMANENT source connector (its choice node exists in every architecture).  Without a
+    failing event (a committed witness) the structural part decides."""
+    g = _g(payload)
+    perm = _permanent_nodes(g)
+    permcc = set()
+    for k, c in enumerate(g.get('cc', []), 1):
+        srcs = set(c['src'])
+        for sid in list(srcs):
+            nd = g['nodes'][sid-1]
+            if nd['t'] == 'grp':
+                srcs |= set(nd['members'])
+        if srcs & perm:
+            permcc.add(k)
+    if not permcc:
+        return False
+    idx = payload.get('fail_idx')
+    ev = (payload.get('trace') or {}).get('ev') or []
+    if idx is None or not ev:
+        return True
+    dvs, hit = [], None
+    for pos, e in enumerate(ev):
+        eidx = e.get('idx', pos+1)
+        if e.get('e') == 'New' and eidx <= idx:
+            dvs = e.get('dvs') or []
+        if eidx == idx:
+            hit = e
+    if hit is None or 'ract' not in hit:
+        return False
+    inactive = [dvs[i] for i, a in enumerate(hit['ract']) if not a and i < len(dvs) and not dvs[i].get('cond')]
+    return bool(inactive) and all(d.get('kind') == 'conn' and d.get('c') in permcc for d in inactive)
+
+
 @trigger
 def HasConnectionChoice(payload):
     return bool(_g(payload).get('cc'))
